@@ -117,6 +117,20 @@ pub fn check_wire_dir(
     let mut unwrap = SeqUnwrap::new(first);
     let mut known: BTreeMap<i64, SeqInfo> = BTreeMap::new();
     let mut max_idx: i64 = -1;
+    // cumulative acknowledgements as the sender was handed them: (time, index acknowledged)
+    let acks_seen: Vec<(u64, i64)> = conn
+        .dir(!from_initiator)
+        .iter()
+        .filter_map(|pi| {
+            let q = &view.pkts[*pi];
+            let pk = q.pkt.as_ref()?;
+            if pk.ty == wire::ST_SYN {
+                return None;
+            }
+            let t = q.recvs.first()?.0;
+            Some((t, wire::seq_diff(pk.ack, first) as i64))
+        })
+        .collect();
     // highest index cumulatively acknowledged by the peer (from packets the peer emitted;
     // conservative: emitted, not necessarily processed)
     for &pi in conn.dir(from_initiator) {
@@ -168,8 +182,18 @@ pub fn check_wire_dir(
                 }
                 if let Some(t0) = info.first_recv {
                     if t0 <= wp.t && res.resegmented_after_delivery_at.is_none() {
-                        res.resegmented_after_delivery_at = Some(wp.t);
-                        rep.counters.inc("c01_resegmented_after_delivery");
+                        // The known mechanism: the probe itself timed out - it was the oldest
+                        // unacknowledged segment, everything before it had been acknowledged to
+                        // the sender. A probe taken back while earlier data is still outstanding
+                        // (somebody else's timeout blamed on the probe) is a different defect and
+                        // is not attributed to the known cause.
+                        let acked_to_sender = acks_seen.iter().filter(|(t, _)| *t <= wp.t).map(|(_, a)| *a).max().unwrap_or(-1);
+                        if acked_to_sender >= idx - 1 {
+                            res.resegmented_after_delivery_at = Some(wp.t);
+                            rep.counters.inc("c01_resegmented_after_delivery");
+                        } else {
+                            rep.counters.inc("c01_resegmented_with_earlier_data_outstanding");
+                        }
                     }
                 }
                 info.len = p.payload.len();
